@@ -697,7 +697,7 @@ pub fn run(ctx: &Ctx) -> Report {
     if ctx.opt("unchecked_probe").is_some() {
         let mut rep = Report::default();
         for i in 0..40 {
-            traits_view(&format!("c20:traits:i{}", i), i, ctx, &mut rep);
+            let _ = panicmon::catch(|| traits_view(&format!("c20:traits:i{}", i), i, ctx, &mut rep));
         }
         return rep;
     }
@@ -737,7 +737,10 @@ pub fn run(ctx: &Ctx) -> Report {
         } else {
             let case = format!("c20:traits:i{}", i);
             if ctx.want(&case) {
-                traits_view(&case, i, ctx, rep);
+                // any panic that escapes the per-index monitors is still "reading a coordinate panicked"
+                if let Err(p) = panicmon::catch(|| traits_view(&case, i, ctx, rep)) {
+                    rep.violation("traits/panic-while-viewing-a-shape", &case, J::obj(vec![("panic", J::s(p.class())), ("message", J::s(p.msg.clone()))]));
+                }
             }
         }
         if idx % 997 == 0 {
